@@ -290,8 +290,11 @@ def run(ctx):
                       sample={"retry": "from_fen(fen, true) iff Err(InvalidCastlingRights)"})
         elif okf == 1:
             seen.add("err")
-            ctx.check(r[0] == "agg" and r[2] == "Err" and dict(r[4])["0"] == ("field", ("downcast", first, "Err"), "0") and
-                      (not isinstance(errv, int)) and icr and icr[0] in errv[1], "from_str:other-errors-passthrough",
+            # "any other error": the catch-all arm (the retried variant excluded) or an arm naming one other variant
+            other_variant = (not isinstance(errv, int) and errv is not None and icr and icr[0] in errv[1]) or \
+                (isinstance(errv, int) and icr and errv != icr[0])
+            ctx.check(r[0] == "agg" and r[2] == "Err" and dict(r[4])["0"] == ("field", ("downcast", first, "Err"), "0") and other_variant,
+                      "from_str:other-errors-passthrough",
                       "an error other than InvalidCastlingRights is not passed through unchanged", loc(sb))
         else:
             ctx.fail("from_str:undecided", "Board::from_str has a path that does not start from from_fen(fen, false)", loc(sb))
